@@ -15,7 +15,7 @@ _TMP = None
 def tmpdir():
     global _TMP
     if _TMP is None or not os.path.isdir(_TMP):
-        _TMP = tempfile.mkdtemp(prefix='gv_c13_')
+        _TMP = tempfile.mkdtemp(prefix='gv_c13_', dir='/dev/shm' if os.path.isdir('/dev/shm') and os.access('/dev/shm', os.W_OK) else None)
     return _TMP
 
 
